@@ -93,7 +93,7 @@ def gen_optstr(rng):
         # long (valid) option lists: header lengths around the read-ahead
         # block and its multiples
         n = rng.choice([70, 80, 83, 84, 85, 86, 87, 90, 170, 180, 181, 182,
-                        183, 190, 280])
+                        183, 190, 280, 8200, 66000])
         s = b' pad=' + b'x' * n + (b', k=v' if rng.chance(0.5) else b'')
     elif k == 4 and s:
         s = s + b'\r'            # a stray CR at the end of the line
@@ -101,17 +101,23 @@ def gen_optstr(rng):
     return s
 
 
-def build(ctx, optstr, crlf=False):
-    """(file bytes, index of the damaged section)."""
+def build(ctx, optstr, crlf=False, own_lf=False):
+    """(file bytes, index of the damaged section).  own_lf: in a CRLF file
+    the damaged header itself ends in a bare LF (the file's newline style is
+    fixed by its first header, so that line is not a header line)."""
     data, idx = build_lf(ctx, optstr)
 
     if crlf:
         # every header line ends in CRLF; content keeps its LF
         out = []
+        target = {'change': 1, 'file': 2, 'change2': 5}.get(ctx)
 
-        for line in data.split(b'\n')[:-1]:
-            out.append(line + (b'\r\n' if line.startswith(b'#')
-                               else b'\n'))
+        for n, line in enumerate(data.split(b'\n')[:-1]):
+            if own_lf and n == target:
+                out.append(line + b'\n')
+            else:
+                out.append(line + (b'\r\n' if line.startswith(b'#')
+                                   else b'\n'))
 
         data = b''.join(out)
 
@@ -138,6 +144,8 @@ def generate(rng, tier, cls):
             'context': rng.choice(CONTEXTS[:3]),
             'opts_hex': gen_optstr(rng).hex(),
             'crlf': rng.chance(0.25),
+            'own_lf': rng.chance(0.1),
+            'stream': gen.gen_stream(rng)[0],
             'block_size': rng.choice([None, None, 1, 5, 97])}
 
 
@@ -208,16 +216,23 @@ def execute(scn, L):
         return out
 
     crlf = bool(scn.get('crlf'))
-    data, idx = build(ctx, optstr, crlf)
+    own_lf = crlf and bool(scn.get('own_lf'))
+    data, idx = build(ctx, optstr, crlf, own_lf)
     line = build_lf(ctx, optstr)[0].split(b'\n')[
         {'change': 1, 'file': 2, 'change2': 5}[ctx]]
     # in a CRLF file the line the grammar sees is the text before the CRLF
-    parsed = R.parse_header_line(line)
+    if own_lf and line.endswith(b'\r'):
+        # "...\r" + LF is a CRLF-terminated line after all
+        parsed = R.parse_header_line(line[:-1])
+    else:
+        parsed = None if own_lf else R.parse_header_line(line)
     w = World(scn, L)
     recs, end, exc = read_all(w, data, block_size=scn.get('block_size'),
-                              actor='R')
+                              stream=scn.get('stream') if scn.get('stream')
+                              in ('sim', 'bytesio', 'buffered') else 'sim',
+                              buf=64, actor='R')
     out.absorb(w)
-    out.case_key = pipe.scn_digest([ctx, optstr.hex(), crlf])
+    out.case_key = pipe.scn_digest([ctx, optstr.hex(), crlf, own_lf])
     out.nontrivial = bool(optstr)
     info = {'line': line, 'context': ctx}
 
